@@ -6,6 +6,26 @@ props = [json.loads(l) for l in open(os.path.join(ROOT, "properties.jsonl"))]
 
 # id -> (engine crate, technique, level text, level note, design ref)
 CHECKS = {
+ "C01": ("vf-core", "property-based testing (proptest): value+spelling co-generation, reference encoder, metamorphic re-spelling, round-trip, rejection of poisoned documents",
+         "Random search over JSON values generated together with one arbitrary textual spelling (key order, whitespace, escape style incl. surrogate pairs, duplicate keys, boundary integers, control/astral characters): every entry path must yield exactly the bytes of a reference canonical encoder written from the spec, a second spelling must give identical bytes, canonical bytes must parse back equal; documents containing one unrepresentable number must be rejected by every entry path.",
+         "Trusted: rustc/std, proptest, serde_json's parser for building inputs (cross-checked because text and value are generated side by side), the hand-written reference encoder. Duplicate keys: last occurrence wins. Non-finite floats are outside the property.",
+         "DESIGN.md section 5 C01"),
+ "C02": ("vf-core", "property-based testing (proptest) with model + differential oracle: signing histories against a ring-based model, tampering metamorphic relations, ring-vs-dalek differential",
+         "Random signing histories (1-3 signers, three PKCS#8 document forms, repeated/interleaved sign_json calls) compared as whole objects with a model whose signatures are produced by ring over the reference canonical JSON; every stored signature verified by ring; one tampering or neutral change then decides verify_json's expected outcome; malformed `signatures` shapes check that an erroring call leaves the object unchanged; (key, signature, message) triples incl. mutated ones compare verify_canonical_json_bytes with ring.",
+         "Trusted: ring 0.17 Ed25519 (independent of ed25519-dalek) as RFC 8032 reference, the reference canonical JSON encoder, hand-written base64.",
+         "DESIGN.md section 5 C02"),
+ "C03": ("vf-core", "property-based testing (proptest): PDU generator x room versions x signer sets x post-signing mutations against reference redaction/hash and ring verification",
+         "Random well-formed PDUs of room versions 1-11 signed by every server the version demands (rules obtained through RoomVersionId::rules()), then one post-signing change whose expected verify_event outcome (All / Signatures / Err) is derived from the reference redaction table and content-hash coverage; stored hash and signatures are re-derived with hand-written SHA-256 and checked with ring over the reference-redacted canonical JSON; redacted copies (reference and ruma redaction) must still verify.",
+         "Trusted: ring, reference redaction table / canonical JSON / SHA-256 (self-tested against ring::digest). Corners not asserted: v11 third_party_invite without signed, third-party invites whose redaction changes the required signer set, events with no required signer.",
+         "DESIGN.md section 5 C03"),
+ "C04": ("vf-core", "bounded-exhaustive table enumeration plus property-based testing against a reference redaction table transcribed from the room-version specs",
+         "Every (room version, event type, key) cell of the redaction table is enumerated through objects that contain every key any version mentions plus unspecified keys; random events with arbitrary subsets/nested values and malformed shapes on top. Result must equal the reference redaction exactly (keys and deep values), be idempotent, and redact / redact_in_place / redact_content_in_place must agree; errors only for the documented malformed shapes.",
+         "Trusted: the reference table (hand-transcribed from the spec's redaction sections for v1, v6, v8, v9, v11). Rules are obtained through RoomVersionId::rules() so version wiring is under test.",
+         "DESIGN.md section 5 C04"),
+ "C05": ("vf-core", "property-based testing (proptest) with reference hash functions, metamorphic mutations and constructed 65,535-byte boundary cases",
+         "Random PDUs of every room version: content_hash and reference_hash must equal hand-written SHA-256 + base64 (alphabet by version) over the reference canonical JSON of the (reference-redacted) event; one mutation inside/outside each covered portion must change / not change the hash; reference hash invariant under ruma's redaction; padded events whose measured canonical form has exactly 65,531-65,540 bytes decide the size limit.",
+         "Trusted: hand-written SHA-256/base64 (self-tested against ring::digest at start-up), reference redaction and canonical JSON.",
+         "DESIGN.md section 5 C05"),
  "C10": ("vf-core", "property-based testing (proptest): grammar/mutant/boundary string generation against a hand-written necessary/sufficient grammar oracle plus cross-form agreement",
          "Random structured search over identifier strings per type (grammar-derived, 1-2 edit mutants, 255/511/767-byte boundary constructions, unstructured) with an accept=>necessary / sufficient=>accept oracle written from the spec appendix, accessor recomposition, agreement of all parsing/serde forms, and constructor outputs re-parsed. Shrunk failures become replay files.",
          "Trusted: rustc/std (incl. Ipv6Addr parser), proptest, serde_json. Spec-silent gaps (ports 65536-99999, server-less room ids, empty localparts, over-long key algorithms) are counted, not asserted.",
